@@ -317,6 +317,19 @@ let () =
     | [c; st; per] -> if resolve (z_of_hex c) (z_of_hex st) (z_of_hex per) then "1" else "0"
     | _ -> failwith "tsres")
 
+(* ---------------- C15 ---------------- *)
+let () =
+  (* thrm <thread/thread/...> <sched>: thread = block;block;... block = k.g.v,k.g.v,... ("-" = empty block) -> values read per thread *)
+  reg "thrm" (fun a -> match a with
+    | [progs; sched] ->
+      let act t = (match String.split_on_char '.' t with [k; g; v] -> ((z_of_hex k, z_of_hex g), z_of_hex v) | _ -> failwith "thrm action") in
+      let blk b = if b = "-" then [] else List.map act (String.split_on_char ',' b) in
+      let thr t = if t = "_" then [] else List.map blk (String.split_on_char ';' t) in
+      let ps = List.map thr (String.split_on_char '/' progs) in
+      let sc = if sched = "_" then [] else List.map z_of_hex (String.split_on_char ',' sched) in
+      "obs=" ^ String.concat "/" (List.map (fun l -> if l = [] then "_" else sl l) (run_threads ps sc))
+    | _ -> failwith "thrm")
+
 let () =
   (try
     while true do
